@@ -395,9 +395,85 @@ def r164(ctx, fx):
                         "invocation, all defined and used at the same places, so every place is reported once per invocation" % who, f.where)
 
 
+def r165(ctx, fx):
+    rid = ctx.rule("R16.5", "units of a position: `LineCol.column` counts characters (File::find_line_col: `chars().count()`), a `Pos` and every index into the text count "
+                   "bytes. In the code map, the analysis database and the source map a column is only compared with columns, shown (+ constant) or stored in a LineCol; "
+                   "a column added to a Pos / byte offset, or used as a bound of a text slice, or cut to a `len()` in bytes, puts the position of a request to the "
+                   "left of the identifier under the cursor on every line with a non-ASCII character in front of it")
+    from .c11 import _anc_walk
+    MODS = ("mos_core::parser::code_map::", "mos_core::codegen::analysis::", "mos_core::codegen::source_map::")
+    n_reads = 0
+    j = 0
+    for f in sorted(fx.all_fns("mos_core"), key=lambda f: f.path):
+        if "::tests::" in f.path or not f.d.get("hir") or f.kind == "closure" or not f.path.startswith(MODS) or f.path.rsplit("::", 1)[-1].startswith("test_"):
+            continue
+        body = f.hir["body"]
+
+        def is_col(x):
+            return x.get("k") == "field" and x.get("name") == "column" and "LineCol" in str(lib.strip(x.get("a", x.get("recv", {}))).get("ty", "")) + str(
+                lib.strip(x.get("a", x.get("recv", {}))).get("aty", ""))
+        carriers = set()
+
+        def is_colval(e, depth=0):
+            """the value of the expression is a column: the field itself, a carrier, a cast / min / max / sum of one — not the answer of some other function
+            that was given a column (`char_indices().nth(column)` is a number of bytes)"""
+            e = lib.strip(e)
+            if depth > 6 or not isinstance(e, dict):
+                return False
+            if is_col(e) or (e.get("k") == "path" and lib.hpath(e) in carriers):
+                return True
+            if e.get("k") == "cast" or (e.get("k") == "unary" and e.get("op") == "Deref"):
+                return is_colval(e.get("a"), depth + 1)
+            if e.get("k") == "binary" and e.get("op") in ("Add", "Sub"):
+                return is_colval(e["l"], depth + 1) or is_colval(e["r"], depth + 1)
+            if e.get("k") in ("mcall", "call") and (e.get("name") in ("min", "max") or str(lib.hcallee(e) or "").endswith(("::min", "::max"))):
+                return any(is_colval(a, depth + 1) for a in ([e["recv"]] if e.get("recv") else []) + list(e.get("args") or []))
+            return False
+        for _ in range(3):
+            for n in lib.hwalk(body):
+                if n.get("k") == "let" and "init" in n and is_colval(n["init"]):
+                    carriers |= {q["name"] for q in lib.hwalk(n["pat"]) if q.get("k") == "bind"}
+        for x, anc in _anc_walk(body):
+            if not (is_col(x) or (x.get("k") == "path" and lib.hpath(x) in carriers)):
+                continue
+            n_reads += 1
+            bad = None
+            child = x
+            for p_, key in reversed(anc):
+                k = p_.get("k")
+                if k == "cast" or k == "addrof" or (k == "block" and key == "expr") or (k == "unary" and p_.get("op") == "Deref"):
+                    child = p_
+                    continue
+                if k == "binary" and p_.get("op") in ("Add", "Sub"):
+                    other = p_["r"] if p_["l"] is child else p_["l"]
+                    if lib.hlit(lib.strip(other)) is None or "Pos" in str(p_.get("ty", "")):
+                        # a column plus something that is not a constant: a position in another unit
+                        if not any(is_col(y) or (y.get("k") == "path" and lib.hpath(y) in carriers) for y in lib.hwalk(other)):
+                            bad = "added to `%s`" % (str(lib.strip(other).get("ty", "?")))
+                    child = p_
+                    continue
+                if k == "index" or (k == "struct" and "Range" in str((p_.get("res") or {}).get("path", ""))):
+                    bad = "used as a bound of a slice / an index"
+                if k in ("mcall", "call") and (p_.get("name") in ("min", "max") or str(lib.hcallee(p_) or "").endswith(("::min", "::max"))):
+                    others = [a for a in ([p_.get("recv")] if p_.get("recv") else []) + list(p_.get("args") or []) if a is not child]
+                    if any(y.get("k") == "mcall" and y.get("name") == "len" for o in others for y in lib.hwalk(o)):
+                        bad = "cut to a `len()`, which counts bytes"
+                break
+            if bad:
+                j += 1
+                ctx.finding(rid, "%s|column-as-bytes#%d" % (f.path, j),
+                            "%s takes a column, which counts characters, for a number of bytes (%s): with a character of more than one byte in front of the cursor the "
+                            "position looked up lies to the left of the one the client asked about — go-to-definition, references and highlights answer for the "
+                            "neighbouring identifier or not at all" % (f.path.rsplit("::", 1)[-1], bad), "%s:%s" % (f.file, x.get("ln")))
+    ctx.inst(rid, "column-reads", sample={"reads_of_a_column_examined": n_reads})
+    if n_reads < 6:
+        ctx.fail_closed(rid, "fewer than 6 reads of LineCol.column found in the code map, the analysis and the source map (%d)" % n_reads)
+
+
 def run(ctx):
     fx = ctx.facts
     cg = lib.CallGraph(fx)
+    r165(ctx, fx)
     r161(ctx, fx)
     r162(ctx, fx, cg)
     r163(ctx, fx)
